@@ -1,0 +1,28 @@
+package hybridbuffer
+
+import (
+	"os"
+	"path/filepath"
+	"testing"
+
+	"github.com/relex/gotils/logger"
+	"github.com/relex/gotils/promexporter/promreg"
+	"github.com/stretchr/testify/assert"
+)
+
+func TestListBufferQueueIDsDirMode(t *testing.T) {
+	root := t.TempDir()
+	mfactory := promreg.NewMetricFactory("testbuf_queuedirs_", nil, nil)
+
+	// queue dirs are created with 0755 minus umask: any permission bits must do, e.g. under umask 027 or 077
+	for id, perm := range map[string]os.FileMode{"q1": 0o755, "q2": 0o750, "q3": 0o700} {
+		dir := makeBufferQueueDir(logger.Root(), root, id)
+		assert.NoError(t, os.WriteFile(filepath.Join(dir, "chunk1"), []byte("data"), 0o644))
+		assert.NoError(t, os.Chmod(dir, perm))
+	}
+	// a stray file in the root dir is not a queue dir
+	assert.NoError(t, os.WriteFile(filepath.Join(root, "stray"), []byte("q4"), 0o644))
+
+	ids := listBufferQueueIDs(logger.Root(), root, testMatchChunkID, mfactory)
+	assert.ElementsMatch(t, []string{"q1", "q2", "q3"}, ids)
+}
